@@ -23,8 +23,8 @@ LEVEL_TEXT = ('every (table, marginal configuration) pair is fitted with the rea
               'entry-wise with the reference and checked for validity; tables outside the zoo are not enumerated: '
               'exploration.')
 LEVEL_NOTE = 'trusted: numpy linear algebra (eigvalsh, cond), scipy.stats.norm.ppf; the fitted marginals are those of the model'
-RULE = ('table zoo (d=2..4(6), 6 correlation designs, marginal mixes, constant columns at every position) + 13 structural '
-        'tables (duplicates, anti-duplicates, affine copies, constants, 2/3-row, integer) x 8 marginal configurations; '
+RULE = ('table zoo (d=2..4(6), 6 correlation designs, marginal mixes, constant columns at every position) + 15 structural '
+        'tables (duplicates, anti-duplicates, affine copies, constants, 2/3-row, integer, gross outliers beyond the score clip) x 9 marginal configurations; '
         'non-trivial = fit succeeded; distinct = distinct (table, configuration)')
 ASSUMPTIONS = ['ridge decision may go either way when 1e15 <= cond(reference) <= 1e17 (cond itself is ill-conditioned there)']
 
